@@ -8,7 +8,8 @@
    result [Ok ..] also says: no exception, and the loop's fuel (an upper bound derived from the
    sizes and the script length) was enough -- i.e. termination, because every non-EINTR outcome
    transfers at least one byte and every EINTR uses up one script entry. *)
-From PP Require Import Reader.FilePieceDefs Reader.FilePieceProofs Sys.C03Proofs.
+From PP Require Warc.WarcDefs Warc.WarcProofs.
+From PP Require Import Reader.FilePieceDefs Reader.FilePieceProofs Sys.C03Proofs Sys.ToolShapesDefs Sys.ToolShapesProofs Sys.WarcShape.
 Local Open Scope nat_scope.
 
 (* WriteOrThrow: the bytes accepted by the OS, concatenated, are the data: once, in order *)
@@ -116,6 +117,131 @@ Theorem C03_line_filter_tool_output :
   line_filter_tool keep cap bcap src rscript wscript = Ok (unrecords 10%Z (filter keep (records 10%Z true src))).
 Proof. exact C03_line_filter_tool_output_proof. Qed.
 Print Assumptions C03_line_filter_tool_output.
+
+(* ---------------------------------------------------------------------------------------------
+   Tool level, the shapes of the executables' main functions (Sys/ToolShapesDefs.v, Sys/WarcShape.v).
+   Every descriptor has its OWN outcome script.  The result type carries the exit status: [Ok x] = main
+   returns, status 0, having produced x; [Fail e] = an exception escapes (non-zero status, C11).
+   "Exit status unchanged" is the first conjunct of each *_status_invariant theorem: the run under
+   arbitrary scripts IS the run under the all-Full scripts ([] = Full for ever).
+   --------------------------------------------------------------------------------------------- *)
+
+(* shape 1 (line filters), exit status and bytes *)
+Theorem C03_line_filter_status_invariant :
+  forall keep cap bcap src rscript wscript,
+  1 <= cap -> no_err rscript = true -> no_err wscript = true -> detect_magic src = false ->
+  line_filter_tool keep cap bcap src rscript wscript = line_filter_tool keep cap bcap src [] [] /\
+  exit_status (line_filter_tool keep cap bcap src rscript wscript) = 0.
+Proof. exact line_filter_status_invariant. Qed.
+Print Assumptions C03_line_filter_status_invariant.
+
+(* ... stdin a regular file (mmap windows) at any descriptor offset *)
+Theorem C03_line_filter_file_status_invariant :
+  forall keep page cap bcap file off rscript wscript,
+  1 <= page -> page <= cap -> off <= length file -> no_err rscript = true -> no_err wscript = true ->
+  detect_magic (skipn off file) = false ->
+  line_filter_tool_file keep page cap bcap file off rscript wscript = line_filter_tool_file keep page cap bcap file off [] [] /\
+  exit_status (line_filter_tool_file keep page cap bcap file off rscript wscript) = 0.
+Proof. exact line_filter_file_status_invariant. Qed.
+Print Assumptions C03_line_filter_file_status_invariant.
+
+(* ... stdin a compressed stream: the decompressing reader delivers the plain bytes in ANY chunking
+   (reader contract of C15); its refills from the descriptor are C03_read_stream_refills_all *)
+Theorem C03_line_filter_stream_status_invariant :
+  forall keep cap bcap plain chunking wscript,
+  1 <= cap -> no_err chunking = true -> no_err wscript = true ->
+  line_filter_tool_stream keep cap bcap plain chunking wscript = line_filter_tool_stream keep cap bcap plain [] [] /\
+  exit_status (line_filter_tool_stream keep cap bcap plain chunking wscript) = 0.
+Proof. exact line_filter_stream_status_invariant. Qed.
+Print Assumptions C03_line_filter_stream_status_invariant.
+
+(* per-line map instead of a predicate *)
+Theorem C03_line_map_tool_output :
+  forall f cap bcap src rscript wscript,
+  1 <= cap -> no_err rscript = true -> no_err wscript = true -> detect_magic src = false ->
+  line_map_tool f cap bcap src rscript wscript = Ok (unrecords 10%Z (map f (records 10%Z true src))).
+Proof. exact line_map_tool_output. Qed.
+Print Assumptions C03_line_map_tool_output.
+
+(* shape 2, the wrappers (cache, foldfilter, b64filter, ...): feeder FilePiece(0) -> g -> FileStream on the
+   child's stdin; child = any function of the bytes delivered; collector FilePiece on the child's stdout -> h ->
+   FileStream(1); FOUR independent scripts (stdin, pipe to the child, pipe from the child, stdout).
+   The child receives exactly the bytes the feeder wrote, the answers are the records of what the child
+   wrote, stdout is what the collector wrote. *)
+Theorem C03_wrapper_tool_output :
+  forall g child h cr2 cap bcap src r1 w1 r2 w2,
+  1 <= cap -> no_err r1 = true -> no_err w1 = true -> no_err r2 = true -> no_err w2 = true ->
+  detect_magic src = false ->
+  detect_magic (child (concat (g (records 10%Z true src)))) = false ->
+  wrapper_tool g child h cr2 cap bcap src r1 w1 r2 w2 =
+  let recs := records 10%Z true src in
+  let delivered := concat (g recs) in
+  Ok (delivered, concat (h recs (records 10%Z cr2 (child delivered)))).
+Proof. exact wrapper_tool_output. Qed.
+Print Assumptions C03_wrapper_tool_output.
+
+Theorem C03_wrapper_status_invariant :
+  forall g child h cr2 cap bcap src r1 w1 r2 w2,
+  1 <= cap -> no_err r1 = true -> no_err w1 = true -> no_err r2 = true -> no_err w2 = true ->
+  detect_magic src = false -> detect_magic (child (concat (g (records 10%Z true src)))) = false ->
+  wrapper_tool g child h cr2 cap bcap src r1 w1 r2 w2 = wrapper_tool g child h cr2 cap bcap src [] [] [] [] /\
+  exit_status (wrapper_tool g child h cr2 cap bcap src r1 w1 r2 w2) = 0.
+Proof. exact wrapper_status_invariant. Qed.
+Print Assumptions C03_wrapper_status_invariant.
+
+(* shape 3, shard: FilePiece(0) -> route -> n outputs, each a ThreadedBufferedStream over a writer with its own
+   script.  [wr] = the writer layer (identity for plain files; a compressor for -c gzip/bzip2) with the writer
+   contract of C15: decoding what it emits gives back what it was given. *)
+Theorem C03_shard_tool_output :
+  forall route n wr dec bsize cap src rscript wscripts,
+  1 <= cap -> 1 <= bsize -> no_err rscript = true -> Forall (fun sc => no_err sc = true) wscripts ->
+  detect_magic src = false -> (forall bl, dec (concat (wr bl)) = concat bl) ->
+  exists sinks, shard_tool route n wr bsize cap src rscript wscripts = Ok sinks /\
+    map dec sinks = map (fun i => unrecords 10%Z (shard_lines route n i (records 10%Z true src))) (seq 0 n).
+Proof. exact shard_tool_output. Qed.
+Print Assumptions C03_shard_tool_output.
+
+Theorem C03_shard_status_invariant :
+  forall route n bsize cap src rscript wscripts,
+  1 <= cap -> 1 <= bsize -> no_err rscript = true -> Forall (fun sc => no_err sc = true) wscripts ->
+  detect_magic src = false ->
+  shard_tool route n (fun bl => bl) bsize cap src rscript wscripts = shard_tool route n (fun bl => bl) bsize cap src [] [] /\
+  exit_status (shard_tool route n (fun bl => bl) bsize cap src rscript wscripts) = 0.
+Proof. exact shard_status_invariant. Qed.
+Print Assumptions C03_shard_status_invariant.
+
+(* shape 4, WARC input (warc_parallel's reader side): C17's record reader instantiated with ReadCompressed::Read
+   over the scripted OS: all well-formed record sequences, all scripts: exactly the records, clean end
+   (AllOk = status part of C17's result type); hence the same as under the all-Full script *)
+Theorem C03_warc_input_tool_records :
+  forall recs n fuel script,
+  no_err script = true -> Forall WarcProofs.wf_record recs -> detect_magic (concat recs) = false ->
+  length recs < n -> length (concat recs) + 1 < fuel ->
+  warc_input_tool n fuel (concat recs) script = WarcDefs.AllOk recs.
+Proof. exact warc_input_tool_records. Qed.
+Print Assumptions C03_warc_input_tool_records.
+
+Theorem C03_warc_input_status_invariant :
+  forall recs n fuel script,
+  no_err script = true -> Forall WarcProofs.wf_record recs -> detect_magic (concat recs) = false ->
+  length recs < n -> length (concat recs) + 1 < fuel ->
+  warc_input_tool n fuel (concat recs) script = warc_input_tool n fuel (concat recs) [].
+Proof. exact warc_input_status_invariant. Qed.
+Print Assumptions C03_warc_input_status_invariant.
+
+(* non-vacuity of the wrapper and shard shapes: an upper-casing child, a 3-byte reader window, tiny buffers *)
+Example C03_nonvacuous_wrapper :
+  let up := map (fun b => if ((97 <=? b) && (b <=? 122))%Z then (b - 32)%Z else b) in
+  wrapper_tool (flat_map (fun r => [r; [10%Z]])) up (fun recs ans => flat_map (fun a => [a; [10%Z]]) ans) true 3 4
+    [97; 98; 10; 99; 13; 10; 100]%Z [Short 1; Eintr] [Short 2; Eintr; Short 1] [Eintr; Short 1; Short 1] [Short 3]
+  = Ok ([97; 98; 10; 99; 10; 100; 10]%Z, [65; 66; 10; 67; 10; 68; 10]%Z).
+Proof. vm_compute. reflexivity. Qed.
+
+Example C03_nonvacuous_shard :
+  shard_tool (fun r => length r) 2 (fun bl => bl) 3 2 [97; 10; 98; 98; 10; 99; 10; 100; 100; 100; 100; 10]%Z
+    [Short 1; Eintr] [[Short 1; Eintr; Short 2]; [Eintr; Short 1]]
+  = Ok [[98; 98; 10; 100; 100; 100; 100; 10]%Z; [97; 10; 99; 10]%Z].
+Proof. vm_compute. reflexivity. Qed.
 
 (* non-vacuity: a concrete outcome sequence with short transfers and interruptions *)
 Example C03_nonvacuous_write :
